@@ -117,11 +117,11 @@ Lemma caccess_good : forall fs c, good (caccess true c fs).
 Proof.
   induction fs as [|f rest IH]; intros c; simpl; auto with good.
   assert (Hstep : good (match c with
-      | VMap m => match mlookup (VStr (f_text f)) m with Some v => Ok v | None => Err E_PLAIN end
+      | VMap m => match map_field m f with Some v => Ok v | None => Err E_PLAIN end
       | VList l => list_at true S_CACC l f
       | _ => Err E_PLAIN end)).
   { destruct c; auto using list_at_good with good.
-    destruct (mlookup (VStr (f_text f)) m); auto with good. }
+    destruct (map_field m f); auto with good. }
   destruct rest as [|g rest']; [exact Hstep|].
   apply good_bind; [exact Hstep | intros v; apply IH].
 Qed.
